@@ -39,7 +39,7 @@ P = {
          "Cancel at sender or receiver at every index of the reference exchanges x modes x closure x single handshake losses x blackout; the oracle checks termination of the cancelling entity within its limits, termination and cancel condition at a reachable peer, and that the destination name never exposes partial content.",
          "A cancel may legitimately lose the race against completion; the cancel-condition rule applies only to runs where the receiver never reported success.", "DESIGN.md §5 C10"),
  "C11": ("exploration", "sim", "runtime monitor over multi-daemon executions with many overlapping transactions, stray/replayed/hostile PDUs: per-transaction outcome, tagged content, id distinctness, daemon liveness probe",
-         "2-3 real daemons with up to tens of overlapping transfers in both directions and mixed modes under random loss, with injected stray PDUs and raw bytes; each transaction must deliver its own tagged content and report its own outcome, Put ids must be distinct, and every daemon must still serve a fresh Put and Report at the end.",
+         "2-3 real daemons with up to tens of overlapping transfers in both directions and mixed modes under random loss, with injected stray PDUs and raw bytes (virtual-time simulator), plus a real-time lane on a multi-thread runtime with a slow receiving filestore (back-pressure under real parallelism); each transaction must deliver its own tagged content and report its own outcome, Put ids must be distinct, and every daemon must still serve a fresh Put and Report at the end.",
          "Schedules are sampled by seed, latency pattern and burst/paced mode.", "DESIGN.md §5 C11"),
  "C12": ("exploration", "fs", "runtime monitor in a chroot jail: native-path containment + full tree snapshot of the sentinel parent before/after every operation, names enumerated over the hostile alphabet",
          "Every name of up to 5 components over {a, ., .., empty, leading /, the root path, a sibling extending the root's name} is fed to every filestore operation; the computed native path must stay inside the root and the sentinel tree outside the root must be unchanged (escaping reads are caught by unique sentinel contents).",
